@@ -1304,3 +1304,30 @@ Proof.
     { apply (desc_p_parent_unique root root p c H); [|exact Hpc]. apply desc_p_in. split; [apply pre_in_self|exact Hcf]. }
     subst p. unfold same_node. now rewrite Nat.eqb_refl.
 Qed.
+
+(* --------- the literal lines of the two generators, lifted from the source *)
+(* [MERMAID_YIELDS] / [DOT_YIELDS] (generated): every [yield] of
+   _node_to_mermaid_flowchart_iter / node_to_dot in source order, literals
+   verbatim, each {placeholder} as code point 0, other expressions as [1].
+   The obligations say that the model's constants ARE these literals, in this
+   order. *)
+Definition HOLE : text := [0%Z].
+
+Lemma mermaid_source_lines :
+  MERMAID_YIELDS =
+  [ L_md_open; L_dashes; L_title ++ HOLE; L_dashes; []; L_generator; []; L_flowchart ++ HOLE;
+    []; L_headers; []; L_nodes;
+    [48; 123; 123; 34]%Z ++ HOLE ++ [34; 125; 125]%Z;
+    HOLE ++ [40; 34]%Z ++ HOLE ++ [34; 41]%Z;
+    []; L_edges; [1%Z]; L_md_close ].
+Proof. vm_compute. reflexivity. Qed.
+
+Lemma dot_source_lines :
+  DOT_INDENT = D_indent /\
+  DOT_YIELDS =
+  [ D_generator; D_digraph ++ HOLE ++ D_open; [];
+    HOLE ++ skipn 2 D_defaults; HOLE ++ skipn 2 D_graph ++ HOLE; HOLE ++ skipn 2 D_node ++ HOLE;
+    HOLE ++ skipn 2 D_edge ++ HOLE; [];
+    HOLE ++ skipn 2 D_nodes; HOLE ++ HOLE ++ HOLE; HOLE ++ HOLE ++ HOLE; [];
+    HOLE ++ skipn 2 D_edges; HOLE ++ HOLE ++ D_arrow ++ HOLE ++ HOLE; [125%Z] ].
+Proof. vm_compute. split; reflexivity. Qed.
